@@ -938,6 +938,26 @@ def enc5_caps(rng, n):
     return out
 
 
+def enc5_shorten_pairs(rng, n):
+    """(full case, bare case) pairs for the shortening rule: the same packet of a limited kind with and without its
+    Reason String / User Properties, under the same peer maximum (1..80 and samples): when the bare packet can be
+    sent, the full one must be sent too (possibly without its diagnostics), never refused"""
+    import copy
+    out = []
+    for t in LIMITED:
+        for _ in range(n):
+            p = diag_packet(rng, t)
+            if not p["ups"] and p["reason_string"] is None:
+                continue
+            bare = copy.deepcopy(p)
+            bare["ups"] = []
+            bare["reason_string"] = None
+            op, opb = op_packet(p), op_packet(bare)
+            for pm in list(range(1, 81)) + rng.sample(PEER_SAMPLES, 3):
+                out.append((enc_case(pm, 0, [op]), enc_case(pm, 0, [opb])))
+    return out
+
+
 def enc5_valid(rng, n):
     """every kind, through the dump syntax, several ops on one codec"""
     out = []
